@@ -526,7 +526,8 @@ def nesting_oracle(types, fact_of, tmpdir, enc, cases, descr, failures, run):
             n += 1
             run.count()
             run.nontriv(('nest', qualname(T) if '<locals>' not in qualname(T) else T.__name__, d))
-            bad = None
+            bad = None          # about the type (may belong to a known finding)
+            loc_bad = None      # about the reported locations / message (never excused by a type finding)
             md = getattr(e, 'ag_error_metadata', None)
             if e is None or md is None:
                 bad = 'no exception with ag_error_metadata reached the caller (%r)' % (e,)
@@ -539,25 +540,50 @@ def nesting_oracle(types, fact_of, tmpdir, enc, cases, descr, failures, run):
             elif d > 1 and got[0] is not None and type(e) is not type(got[0]):
                 bad = 'type changes at a further conversion boundary: %s after one wrapper, %s after %d' % (
                     qualname(type(got[0])), qualname(type(e)), d)
-            elif md.cause_message != want_msg:
-                bad = 'message %r arrives as %r' % (want_msg, md.cause_message)
-            else:
+            if md is not None:
+                # whatever the type: the message and one location per converted function on the path, both in the
+                # metadata (innermost first) and in the MESSAGE the caller reads (outermost first)
                 st = [(fi.lineno, fi.function_name, bool(fi.is_converted)) for fi in md.translated_stack if fi.filename == path]
                 want = [(m.LINES[i], 'w%d' % i, True) for i in range(d)]
-                if st != want:
-                    bad = 'translated_stack %r, expected one entry per wrapper %r' % (st, want)
-            if bad:
+                text = str(e)
+                tl = text.split('\n')
+                listed = []
+                for line in tl:
+                    mm = re.match(r'^    File "(.*)", line (\d+), in (\S+)', line)
+                    if mm and mm.group(1) == path:
+                        listed.append((int(mm.group(2)), mm.group(3)))
+                want_listed = [(m.LINES[i], 'w%d' % i) for i in reversed(range(d))]
+                if md.cause_message != want_msg:
+                    loc_bad = 'message %r arrives as %r' % (want_msg, md.cause_message)
+                elif st != want:
+                    loc_bad = 'translated_stack %r, expected one entry per wrapper %r' % (st, want)
+                elif listed != want_listed:
+                    loc_bad = ('the message of the exception lists the locations %r, expected one per converted function on the '
+                               'path, outermost first: %r' % (listed, want_listed))
+                else:
+                    pos = 0
+                    for line in want_msg.split('\n'):
+                        if ('    ' + line) in tl[pos:]:
+                            pos = tl.index('    ' + line, pos) + 1
+                        else:
+                            loc_bad = 'the message of the exception does not carry the original message line %r' % line
+                            break
+            for which, b in (('type', bad), ('loc', loc_bad)):
+                if not b:
+                    continue
                 cls = None
-                if e is not None and classify_rewrap(T, d, got[0], e):
+                if which == 'type' and e is not None and classify_rewrap(T, d, got[0], e):
                     cls = F_REWRAP
-                elif e is not None and classify_identity(T, type(e)):
+                elif which == 'type' and e is not None and classify_identity(T, type(e)):
                     cls = F_IDENTITY
-                title = 'exception crossing %d malt.convert wrapper(s): %s' % (d, bad)
+                title = 'exception crossing %d malt.convert wrapper(s): %s' % (d, b)
                 if cls:
                     title = 'exception crossing nested malt.convert wrappers arrives with the wrong type'
-                failures.append((title, {'what': bad, 'exception_class': qualname(T), 'wrappers_crossed': d,
-                                         'program': NEST_TEXT,
-                                         'how': 'import the program; WRAPPERS[%d](%s(...)) ; compare type / ag_error_metadata' % (d - 1, T.__name__)},
+                elif which == 'loc':
+                    title = 'exception crossing nested malt.convert wrappers does not report one location per converted function'
+                failures.append((title, {'what': b, 'exception_class': qualname(T), 'wrappers_crossed': d,
+                                         'program': NEST_TEXT, 'observed_message': None if e is None else str(e),
+                                         'how': 'import the program; WRAPPERS[%d](%s(...)) ; compare type / str(e) / ag_error_metadata' % (d - 1, T.__name__)},
                                  cls))
         # model: the chain of re-creations
         if all(g is not None for g in got):
